@@ -50,7 +50,9 @@ func (h *vfE2H) doF8Impl(k int, tok string) {
 		return
 	}
 	h.emit(fmt.Sprintf("finchan %d %d", k, seq), "ok")
-	cn.skew = true
+	// fix F13: Channel.Empty subtracts what it dropped, the parked FIN's own decrement follows:
+	// the harness's books (holds 0, finished +1) must agree with the client's counters afterwards
+	cn.nFin++
 	h.micro = true
 	ch.finished[seq] = true
 	delete(ch.located, seq)
